@@ -407,23 +407,46 @@ def stepCore (st : St) (ws : List String) : St × String :=
           if digest s1 enumIds enumKeys ≠ digest s0 enumIds enumKeys ∨ readers.length ≠ observed.length ∨ cy.isEmpty then
             (st, i ++ " bad-op")
           else
-            -- observed token per reader: `c=ans|ans;c=ans`
+            -- observed token per reader: `c=ans|ans;c=ans[;@step:ans&ans|step:ans&ans]`
+            let ordered := states.reverse          -- ordered[j] = state after j calls of the cycle
+            let answerIn := fun (s : State) (op : EOp) => (eApply s 0 op).map (·.2)
             let verdict := (readers.zip observed).foldl (fun (acc : Option Nat) (ro : String × String) =>
               match acc with
               | none => none
               | some n =>
-                let parts := ro.2.splitOn ";"
-                if parts.length ≠ ro.1.length then none else
-                (ro.1.toList.zip parts).foldl (fun (acc : Option Nat) (cp : Char × String) =>
+                let (plain, wins) := match ro.2.splitOn ";@" with
+                  | [a, b] => (a, b.splitOn "|")
+                  | _ => (ro.2, [])
+                let prog := ro.1.toList.filterMap (fun ch => eopOfCode (codeOfChar ch))
+                let isQuery := fun (op : EOp) => match op with
+                  | .ins _ => false | .rem _ => false | .alias _ _ => false | _ => true
+                let parts := plain.splitOn ";"
+                if parts.length ≠ ro.1.length ∨ prog.length ≠ ro.1.length ∨ !prog.all isQuery then none else
+                let n1 := (ro.1.toList.zip parts).foldl (fun (acc : Option Nat) (cp : Char × String) =>
                   match acc, eopOfCode (codeOfChar cp.1), cp.2.splitOn "=" with
                   | some n, some op, [c, answers] =>
                     if c ≠ String.singleton cp.1 then none else
-                    let adm := states.filterMap (fun s => (eApply s 0 op).map (·.2))
-                    let isQuery : Bool := match op with
-                      | .ins _ => false | .rem _ => false | .alias _ _ => false | _ => true
+                    let adm := states.filterMap (fun s => answerIn s op)
                     let obs := if answers = "" then [] else answers.splitOn "|"
-                    if isQuery && obs.all (fun a => adm.contains a) then some (n + obs.length) else none
-                  | _, _, _ => none) (some n)) (some 0)
+                    if obs.all (fun a => adm.contains a) then some (n + obs.length) else none
+                  | _, _, _ => none) (some n)
+                -- windowed passes: a pass that lies inside call `step` of the cycle answers from the state before
+                -- that call up to some point and from the state after it from then on
+                wins.foldl (fun (acc : Option Nat) (w : String) =>
+                  match acc, w.splitOn ":" with
+                  | some n, stepS :: rest =>
+                    match stepS.toNat?, rest with
+                    | some step, _ :: _ =>
+                      let answers := (":".intercalate rest).splitOn "&"
+                      match ordered[step]?, ordered[step + 1]? with
+                      | some before, some after =>
+                        let ok := answers.length = prog.length ∧ (List.range (prog.length + 1)).any (fun j =>
+                          ((List.range prog.length).zip (prog.zip answers)).all (fun e =>
+                            answerIn (if e.1 < j then before else after) e.2.1 = some e.2.2))
+                        if ok then some (n + 1) else none
+                      | _, _ => none
+                    | _, _ => none
+                  | _, _ => none) n1) (some 0)
             match verdict with
             | some n => (st, i ++ " ok " ++ toString n)
             | none => (st, i ++ " INADMISSIBLE")
